@@ -129,6 +129,8 @@ def _cls(ps, args, want, got):
 
 # ------------------------------------------------------------------ end to end
 def e2e_universe(tier):
+    if tier == "vectors":
+        return ["int2", "float2", "float3", "int3"]
     return ["int", "float", "float2"] if tier == "quick" else ["int", "float", "uint", "int2", "float2"]
 
 
@@ -171,6 +173,8 @@ def w_e2e(job):
     tier, first, maxn = job
     U = e2e_universe(tier)
     sigs = signatures(U)
+    if tier == "vectors":
+        sigs = [s_ for s_ in sigs if len(s_) == 1]      # one parameter: the vector types meet as arguments of ONE name in one module
     fails, counts = [], {}
     n = nontriv = 0
     outcomes = {}
@@ -309,6 +313,8 @@ def run(tier, seed):
     ne = len(signatures(e2e_universe(tier)))
     for first in range(ne):
         jobs.append((w_e2e, (tier, first, 3)))
+    for first in range(4):
+        jobs.append((w_e2e, ("vectors", first, 3)))
     jobs.append((w_misc, None))
     rot = seed % len(jobs) if seed else 0
     jobs = jobs[rot:] + jobs[:rot]
